@@ -28,7 +28,9 @@ CONFIG = {
                    'variables, all argument orders in thorough) the two '
                    'notations are compared, the resulting diagram is printed '
                    'in both forms and read back, and/or/not synonyms and the '
-                   'documented error classes are checked.'),
+                   'documented error classes are checked.'
+                   ' Also: flat n-ary and/or chains, non-Boolean constructs'
+                   ' nested inside valid operators.'),
     'level_note': ('Trusted base: vmon/refbool.py (Python evaluation of the '
                    'expression on all assignments; diagram walker).'),
     'deciding': ['c18.lambda', 'c18.print_root', 'c18.print_obdd',
